@@ -91,7 +91,8 @@ def m_len(ip, args, kw, st, node):
         sq = v.seq
         n = fresh("ndistinct", I)
         a, b = z3.Int("a!ds"), z3.Int("b!ds")
-        alleq = z3.ForAll([a, b], z3.Implies(z3.And(0 <= a, a < sq.n, 0 <= b, b < sq.n), z3.Select(sq.arr, a) == z3.Select(sq.arr, b)))
+        alleq = z3.ForAll([a, b], z3.Implies(z3.And(0 <= a, a < sq.n, 0 <= b, b < sq.n), z3.Select(sq.arr, a) == z3.Select(sq.arr, b)),
+                          patterns=[z3.MultiPattern(z3.Select(sq.arr, a), z3.Select(sq.arr, b))])
         st.assume(n >= 0, n <= sq.n, (n == 0) == (sq.n == 0), (n == 1) == z3.And(sq.n >= 1, alleq))
         return [(Sym(n, "int"), st)]
     raise OutOfSubset(f"len of {v!r}", node)
